@@ -188,9 +188,14 @@ func (p *OutPort) Close() {
 	p.mu.Lock()
 
 	closeHooks := p.closeHooks
-	writers := p.writers
+	writers := make([]*packet.Writer, 0, len(p.writers))
+	for _, writer := range p.writers {
+		writer := writer
+		writers = append(writers, writer)
+	}
 
-	p.writers = make(map[*process.Process]*packet.Writer)
+	// the closed writers stay registered until their process exits: a listener of this port that
+	// opens it late must find the writer its packets went through, not a fresh one
 	p.ins = nil
 	p.openHooks = nil
 	p.closeHooks = nil
